@@ -158,6 +158,47 @@ func (cr *checkRun) wireObligations() []*OblResult {
 			fail(fmt.Sprintf("%s.%s/wire#type", pkgShort, c.Name), "the message struct exists", "STALE: struct type "+c.Name+" not found in "+c.Pkg)
 			continue
 		}
+		// routing interfaces: which of the protocol's message interfaces *T satisfies decides where the Transport sends it
+		named, _ := self.Scope().Lookup(c.Name).Type().(*types.Named)
+		lookupIface := func(q string) *types.Interface {
+			i := strings.LastIndex(q, ".")
+			if i < 0 {
+				return nil
+			}
+			for _, imp := range self.Imports() {
+				if imp.Name() == q[:i] {
+					if o := imp.Scope().Lookup(q[i+1:]); o != nil {
+						it, _ := o.Type().Underlying().(*types.Interface)
+						return it
+					}
+				}
+			}
+			return nil
+		}
+		for _, kind := range []struct {
+			list []string
+			want bool
+		}{{c.Impl, true}, {c.NotImpl, false}} {
+			for _, q := range kind.list {
+				name := fmt.Sprintf("%s.%s/iface#%s", pkgShort, c.Name, q)
+				verb := "implements"
+				if !kind.want {
+					verb = "does not implement"
+				}
+				text := "*" + c.Name + " " + verb + " " + q
+				it := lookupIface(q)
+				if it == nil || named == nil {
+					fail(name, text, "interface "+q+" not found among the imports of "+c.Pkg)
+					continue
+				}
+				got := types.Implements(types.NewPointer(named), it)
+				if got == kind.want {
+					out = append(out, &OblResult{Name: name, Kind: "wire", Fn: "wire " + c.Name, Text: text, Status: "proved", Solver: "evaluation", Answer: "match"})
+				} else {
+					fail(name, text, "the method set of *"+c.Name+" says otherwise")
+				}
+			}
+		}
 		for _, l := range c.Layouts {
 			for v := l.Lo; v <= l.Hi; v++ {
 				name := fmt.Sprintf("%s.%s/wire#v%d", pkgShort, c.Name, v)
